@@ -23,6 +23,7 @@ import (
 	"bufio"
 	"encoding/binary"
 	"encoding/json"
+	"fmt"
 	"math/rand"
 	"os"
 	"os/exec"
@@ -46,6 +47,7 @@ type c10Ent struct {
 
 type c10Sec struct {
 	Ni int    `json:"ni"`
+	St int    `json:"st"` // section type (not reported by the kernel; the string-table section gets 3)
 	Fl [2]int `json:"fl"`
 	Ad [4]int `json:"ad"`
 	Sz [4]int `json:"sz"`
@@ -55,6 +57,7 @@ type c10Tag struct {
 	K      string   `json:"k"`
 	S      []int    `json:"s"`
 	Es     int      `json:"es"`
+	Ev     int      `json:"ev"` // memory-map entry version (not reported by the kernel)
 	Ents   []c10Ent `json:"ents"`
 	Addr   [4]int   `json:"addr"`
 	Pitch  [2]int   `json:"pitch"`
@@ -88,7 +91,7 @@ func c10W64(v uint64) [4]int {
 func c10W32(v uint32) [2]int { return [2]int{int(v >> 16), int(v & 0xffff)} }
 
 // c10Cap bounds what is logged when the code under test reports garbage (far above any well-formed case of this harness).
-const c10Cap = 300
+const c10Cap = 3000
 
 func c10Ints(b []byte) []int {
 	if len(b) > 4*c10Cap {
@@ -107,6 +110,7 @@ func c10Ints(b []byte) []int {
 type c10Arena struct {
 	mem  []byte
 	size int // usable bytes before the guard page
+	used int // start offset of the block placed last (0: arena never wiped)
 }
 
 func c10NewArena(t *testing.T, pages int) *c10Arena {
@@ -125,10 +129,19 @@ func (a *c10Arena) place(b []byte) uintptr {
 	if len(b) > a.size-64 {
 		panic("c10: arena too small")
 	}
-	for i := range a.mem[:a.size] {
-		a.mem[i] = 0x5a
-	}
 	start := a.size - len(b)
+	// wipe what the previous block left (and a margin in front of this one)
+	lo := start - 256
+	if a.used < lo {
+		lo = a.used
+	}
+	if lo < 0 || a.used == 0 {
+		lo = 0
+	}
+	for i := range a.mem[lo:a.size] {
+		a.mem[lo+i] = 0x5a
+	}
+	a.used = start
 	copy(a.mem[start:a.size], b)
 	if len(b) == 0 {
 		return uintptr(unsafe.Pointer(&a.mem[0])) + uintptr(a.size)
@@ -159,7 +172,7 @@ func c10Encode(c *c10Case, strtabs func(int) *c10Arena) []byte {
 			ty = 6
 			body = make([]byte, 8)
 			c10le.PutUint32(body[0:], uint32(tg.Es))
-			c10le.PutUint32(body[4:], 0)
+			c10le.PutUint32(body[4:], uint32(tg.Ev))
 			for _, en := range tg.Ents {
 				e := make([]byte, tg.Es)
 				for i := range e {
@@ -206,7 +219,7 @@ func c10Encode(c *c10Case, strtabs func(int) *c10Arena) []byte {
 				if si == tg.Shndx {
 					c10le.PutUint32(h[4:], 3)
 				} else {
-					c10le.PutUint32(h[4:], 1)
+					c10le.PutUint32(h[4:], uint32(s.St))
 				}
 				c10le.PutUint64(h[8:], uint64(c10U32(s.Fl)))
 				c10le.PutUint64(h[16:], c10U64(s.Ad))
@@ -257,7 +270,7 @@ func c10Abstract(c *c10Case) []c10Ev {
 			if ents == nil {
 				ents = []c10Ent{}
 			}
-			out = append(out, c10Ev{"k": "mmap", "es": tg.Es, "ents": ents})
+			out = append(out, c10Ev{"k": "mmap", "es": tg.Es, "ev": tg.Ev, "ents": ents})
 		case "fb":
 			ci := tg.Ci
 			if ci == nil {
@@ -308,7 +321,7 @@ func c10Observe(addr uintptr) c10Ev {
 		VisitMemRegions(func(e *MemoryMapEntry) bool {
 			regs = append(regs, c10Ev{"a": c10W64(e.PhysAddress), "l": c10W64(e.Length), "t": c10W32(uint32(e.Type))})
 			n++
-			return n < c10Cap // (well-formed blocks of this harness hold at most 64 entries)
+			return n < c10Cap // (well-formed blocks of this harness hold at most 600 entries)
 		})
 	})
 
@@ -414,17 +427,30 @@ func TestVerifC10Child(t *testing.T) {
 	// a decoder working on garbage may ask for gigabytes or spin: bound the child, the parent logs its death
 	syscall.Setrlimit(9 /* RLIMIT_AS */, &syscall.Rlimit{Cur: 3 << 30, Max: 3 << 30})
 	syscall.Setrlimit(syscall.RLIMIT_CPU, &syscall.Rlimit{Cur: 300, Max: 300})
-	block := c10NewArena(t, 16)
+	block := c10NewArena(t, 128)
 	var strtab []*c10Arena
 	for i := range jobs {
 		c := &jobs[i].Case
-		bytes := c10Encode(c, func(i int) *c10Arena {
-			for len(strtab) <= i {
-				strtab = append(strtab, c10NewArena(t, 1))
-			}
-			return strtab[i]
-		})
-		addr := block.place(bytes)
+		var bytes []byte
+		var addr uintptr
+		func() {
+			// a failure of the encoder is a defect of this harness, never a result of the code under test
+			defer func() {
+				if r := recover(); r != nil {
+					line, _ := json.Marshal(c10Ev{"k": "harness", "msg": fmt.Sprint(r)})
+					out.Write(append(line, '\n'))
+					out.Close()
+					os.Exit(8)
+				}
+			}()
+			bytes = c10Encode(c, func(i int) *c10Arena {
+				for len(strtab) <= i {
+					strtab = append(strtab, c10NewArena(t, 8))
+				}
+				return strtab[i]
+			})
+			addr = block.place(bytes)
+		}()
 		done := make(chan c10Ev, 1)
 		go func() {
 			debug.SetPanicOnFault(true)
@@ -496,6 +522,8 @@ func c10RunIsolated(t *testing.T, env string, jobs []c10Job) {
 			sc.Buffer(make([]byte, 1<<20), 1<<26)
 			for sc.Scan() {
 				var probe struct {
+					K   string `json:"k"`
+					Msg string `json:"msg"`
 					Obs struct {
 						Mm struct {
 							Res string `json:"res"`
@@ -504,6 +532,9 @@ func c10RunIsolated(t *testing.T, env string, jobs []c10Job) {
 				}
 				if json.Unmarshal(sc.Bytes(), &probe) != nil {
 					break // torn last line of a dying child
+				}
+				if probe.K == "harness" {
+					t.Fatalf("harness error while encoding job %d: %s", n+got, probe.Msg)
 				}
 				w.Write(sc.Bytes())
 				w.WriteByte('\n')
@@ -620,6 +651,10 @@ func c10RandCmd(rng *rand.Rand) []int {
 	if rng.Intn(4) == 0 {
 		n = rng.Intn(40)
 	}
+	long := rng.Intn(25) == 0 // a command line of kilobytes: hundreds of entries, entries of hundreds of characters
+	if long {
+		n = 100 + rng.Intn(150)
+	}
 	ws := []byte{' ', ' ', ' ', '\t', '\n', '\v', '\f', '\r'}
 	word := func() string {
 		al := "abcxyzKV019._-/:,"
@@ -627,12 +662,18 @@ func c10RandCmd(rng *rand.Rand) []int {
 		if rng.Intn(8) == 0 {
 			l = rng.Intn(30)
 		}
+		if long && rng.Intn(30) == 0 {
+			l = 100 + rng.Intn(400)
+		}
 		s := make([]byte, l)
 		for i := range s {
 			if rng.Intn(40) == 0 {
-				s[i] = byte(1 + rng.Intn(127))
-				for s[i] == '=' {
-					s[i] = 'q'
+				// any byte but NUL and '='; of the non-ASCII ones not the lead bytes C2/E1/E2/E3 with which
+				// a Unicode space (U+0085, U+00A0, U+1680, U+2000.., U+3000) could form: the statement does
+				// not say whether those separate entries
+				s[i] = byte(1 + rng.Intn(255))
+				for s[i] == '=' || s[i] == 0xc2 || s[i] == 0xe1 || s[i] == 0xe2 || s[i] == 0xe3 {
+					s[i] = byte(1 + rng.Intn(255))
 				}
 			} else {
 				s[i] = al[rng.Intn(len(al))]
@@ -684,7 +725,17 @@ func c10RandTag(rng *rand.Rand, kind int) c10Tag {
 		if rng.Intn(4) == 0 {
 			n = rng.Intn(65)
 		}
-		tg := c10Tag{K: "mmap", Es: es, Ents: []c10Ent{}}
+		switch rng.Intn(16) {
+		case 0: // entry sizes far above the 24 bytes the kernel's struct has: around 2^8, 2^12, 2^16
+			es = []int{72, 128, 255, 256, 257, 264, 1000, 4096, 4100, 65536, 65544, 70001}[rng.Intn(12)]
+			n = rng.Intn(4)
+			if es < 300 {
+				n = rng.Intn(40)
+			}
+		case 1: // hundreds of entries
+			n = 65 + rng.Intn(500)
+		}
+		tg := c10Tag{K: "mmap", Es: es, Ev: []int{0, 0, 0, 1, 0x7fffffff}[rng.Intn(5)], Ents: []c10Ent{}}
 		for i := 0; i < n; i++ {
 			tg.Ents = append(tg.Ents, c10Ent{A: c10W64(c10RandWord(rng)), L: c10W64(c10RandWord(rng)), T: c10W32(c10RandType(rng))})
 		}
@@ -711,6 +762,9 @@ func c10RandTag(rng *rand.Rand, kind int) c10Tag {
 		if rng.Intn(4) == 0 {
 			ns = 1 + rng.Intn(30)
 		}
+		if rng.Intn(20) == 0 {
+			ns = 31 + rng.Intn(400) // past 255 sections
+		}
 		if rng.Intn(8) == 0 {
 			return c10Tag{K: "elf", Shndx: 0, Secs: []c10Sec{}, Strtab: []int{}} // image without section headers
 		}
@@ -720,14 +774,18 @@ func c10RandTag(rng *rand.Rand, kind int) c10Tag {
 		for i := rng.Intn(ns + 2); i >= 0; i-- {
 			starts = append(starts, len(st))
 			al := ".abcdnoprstxyz_0189"
-			for j := rng.Intn(12); j > 0; j-- {
+			nl := rng.Intn(12)
+			if rng.Intn(30) == 0 {
+				nl = 200 + rng.Intn(300)
+			}
+			for j := nl; j > 0; j-- {
 				st = append(st, int(al[rng.Intn(len(al))]))
 			}
 			st = append(st, 0)
 		}
 		tg := c10Tag{K: "elf", Shndx: rng.Intn(ns), Strtab: st}
 		for i := 0; i < ns; i++ {
-			s := c10Sec{Ni: starts[rng.Intn(len(starts))], Fl: c10W32(uint32(rng.Intn(8))), Ad: c10W64(c10RandWord(rng)), Sz: c10W64(c10RandWord(rng))}
+			s := c10Sec{Ni: starts[rng.Intn(len(starts))], St: []int{0, 1, 1, 2, 3, 4, 8, 0x70000001, 0x7fffffff}[rng.Intn(9)], Fl: c10W32(uint32(rng.Intn(8))), Ad: c10W64(c10RandWord(rng)), Sz: c10W64(c10RandWord(rng))}
 			if rng.Intn(5) == 0 {
 				s.Ni = rng.Intn(len(st)) // in the middle of a name
 			}
@@ -744,13 +802,39 @@ func c10RandTag(rng *rand.Rand, kind int) c10Tag {
 		}
 		return tg
 	default:
-		tys := []int{2, 3, 4, 5, 7, 10, 11, 12, 13, 14, 15, 16, 17, 18, 19, 20, 21, 22, 1000, 0x7fffffff, 0x100, 0x101, 0x106, 0x108, 0x109, 0x10006, 0x1000000}
+		tys := []int{2, 3, 4, 5, 7, 10, 11, 12, 13, 14, 15, 16, 17, 18, 19, 20, 21, 22, 1000, 0x7fffffff, 0x100, 0x101, 0x106, 0x108, 0x109, 0x10006, 0x1000000,
+			-0x80000000, -0x80000000 + 6, -0x80000000 + 1, -1, -250 /* tag types >= 2^31 are written as type - 2^32 */}
 		n := rng.Intn(18)
 		if rng.Intn(6) == 0 {
 			n = rng.Intn(200)
 		}
+		if rng.Intn(40) == 0 {
+			n = 65500 + rng.Intn(40000) // a tag whose size does not fit 16 bits
+		}
 		return c10Tag{K: "other", Ty: tys[rng.Intn(len(tys))], Len: n, Fill: []uint32{0, 1, 6, 8, 9, 0xeeee, 0x0606, 0x0808}[rng.Intn(8)]}
 	}
+}
+
+func c10TagSize(tg *c10Tag) int {
+	switch tg.K {
+	case "cmd":
+		return 16 + len(tg.S)
+	case "mmap":
+		return 24 + tg.Es*len(tg.Ents)
+	case "fb":
+		return 40 + len(tg.Ci)
+	case "elf":
+		return 28 + 64*len(tg.Secs)
+	}
+	return 16 + tg.Len
+}
+
+func c10BlockSize(blk []c10Tag) int {
+	n := 16
+	for i := range blk {
+		n += c10TagSize(&blk[i])
+	}
+	return n
 }
 
 func TestVerifC10Random(t *testing.T) {
@@ -776,6 +860,16 @@ func TestVerifC10Random(t *testing.T) {
 				kind = 4
 			}
 			c.Blk = append(c.Blk, c10RandTag(rng, kind))
+		}
+		// the block has to fit the 512 KiB arena: drop the biggest tags of an oversized draw
+		for c10BlockSize(c.Blk) > 400000 {
+			big := 0
+			for j := range c.Blk {
+				if c10TagSize(&c.Blk[j]) > c10TagSize(&c.Blk[big]) {
+					big = j
+				}
+			}
+			c.Blk = append(c.Blk[:big], c.Blk[big+1:]...)
 		}
 		// empty-payload corner cases, most often as the LAST tag (flush against the inaccessible page behind the end tag)
 		if rng.Intn(3) == 0 {
